@@ -416,7 +416,10 @@ def main(argv=None):
             'status': status,
             'partial': bool(args.only),
         },
-        'assumptions': list(meta.get('stubs', [])) + list(meta.get('assumptions', [])),
+        'assumptions': list(meta.get('stubs', [])) + list(meta.get('assumptions', [])) + (
+            ['engine: floats are modelled as reals and CrossHair\'s UNKNOWN cap for real-modelled floats is lifted; in E1 harnesses '
+             'floats arise only from symbolic integers (float(n), comparisons with inf), exact for |n| < 2**53']
+            if not meta.get('engine', '').startswith('E2') else []),
     }
     if not args.no_evidence:
         with open(os.path.join(VERIF, 'evidence', '%s.json' % prop), 'w') as handle:
